@@ -12,7 +12,7 @@ sc=/tmp/mut/ref_$name; rm -rf $sc; mkdir -p $sc; cp -r /repo/python $sc/python; 
 for c in $checks; do
   s=$(date +%s)
   SX_REPO=$sc timeout 3000 /verif/check $c > $out/check_$c.out 2>&1; rc=$?
-  echo "$c exit=$rc wall=$(( $(date +%s)-s ))s $(grep -cE '^  skipped|skipped' $out/check_$c.out) skipped-lines" | tee -a $out/checks.txt
+  echo "$c exit=$rc wall=$(( $(date +%s)-s ))s $(grep -cE '^  (SKIPPED|DECLINED)' $out/check_$c.out) skipped-lines" | tee -a $out/checks.txt
   if [ $rc -ne 0 ]; then grep -E "^VIOLATION|INCONCLUSIVE|inconclusive|Unmodelled" $out/check_$c.out | head -5 | cut -c1-300; fi
 done
 rm -rf $sc
